@@ -38,11 +38,16 @@ class FusedExporter:
     def key(self, k):
         if isinstance(k, tuple) and len(k) == 2 and isinstance(k[0], str) and isinstance(k[1], int):
             return ["part", self.nm(k[0]), k[1]]
-        if isinstance(k, str) and k.startswith("_") and k[1:].isdigit():
-            return ["place", int(k[1:])]
+        if self.is_place(k):
+            return ["place", k[2]]
         if isinstance(k, str):
             return ["name", self.nm(k)]
         raise ValueError("unexpected key %r" % (k,))
+
+    @staticmethod
+    def is_place(k):
+        """placeholder of the i-th external input of a fused group: (name of the fused node, "_dep", i)"""
+        return isinstance(k, tuple) and len(k) == 3 and isinstance(k[0], str) and k[1] == "_dep" and isinstance(k[2], int)
 
     def is_key(self, x, graph):
         try:
@@ -52,7 +57,7 @@ class FusedExporter:
 
     def task(self, member_name, t, graph):
         from dask.utils import apply
-        if self.is_key(t, graph) or (isinstance(t, str)):
+        if self.is_key(t, graph) or isinstance(t, str) or self.is_place(t):
             return ["alias", self.key(t)]
         assert isinstance(t, tuple), t
         if t and t[0] is apply:
@@ -75,10 +80,12 @@ class FusedExporter:
         entries = []
         for k, v in graph.items():
             kk = self.key(k)
-            if isinstance(k, tuple):
+            if self.is_place(k):
+                mn = 0
+            elif isinstance(k, tuple):
                 mn = self.nm(k[0])
             else:
-                mn = self.nm(k) if not (isinstance(k, str) and k.startswith("_")) else 0
+                mn = self.nm(k)
             entries.append(sx([kk, self.task(mn, v, graph)]))
         return [sorted(entries), self.key(root), [self.key(k) for k in t[3:]]]
 
